@@ -25,6 +25,9 @@ Definition dsp_line (i : list bytes) (k : nat) : linfo :=
                    else match Nat.modulo (c - 1) 7 with 0%nat | 2%nat | 3%nat => 1 | _ => 0 end;
           n_fg := get_nat i (13 + 2 * c); n_bg := get_nat i (14 + 2 * c);
           welcome := Nat.eqb c 0 |}
+  else if Nat.eqb c 901 && negb (dsp_track i)
+  then (* a short PING line: h_PING panics; the user handlers registered on PING (verb 1) still run *)
+       {| n_int := 1; n_fg := get_nat i 15; n_bg := get_nat i 16; welcome := false |}
   else {| n_int := 1; n_fg := 0; n_bg := 0; welcome := false |}.
 
 Definition dsp_session (i : list bytes) : session :=
